@@ -99,10 +99,13 @@ func C20(c *Ctx) {
 			return
 		}
 		if b.Exit != 0 {
+			// the generator draws from the subset as pinned against the hand-written parser (no text
+			// of it is rejected on the pinned tree, at any seed or tier): a rejection is a divergence of
+			// the two front-ends, not a generator problem
 			rejectedBoot++
-			if len(c.samples) < 10 {
-				c.samples = append(c.samples, map[string]any{"bootstrap_rejects": jobs[i].text, "error": firstLine(string(b.Stdout))})
-			}
+			c.mu.Unlock()
+			c.Report(&Violation{Class: "C20/bootstrap-rejects", Summary: fmt.Sprintf("the hand-written bootstrap front-end rejects a text of its own syntax subset that the generated front-end accepts: %s; text %q", firstLine(string(b.Stdout)), jobs[i].text), Grammar: jobs[i].text})
+			c.mu.Lock()
 			return
 		}
 		if a.Exit != 0 {
